@@ -438,11 +438,8 @@ public:
         using co_awaiter<subscriber>::co_awaiter;
 
         operator bool() {
-            if (!this->await_ready()) {
-                return this->wait();
-            } else {
-                return this->await_resume();
-            }
+            this->sync();
+            return this->await_resume();
         }
         bool await_resume() {
             return this->_owner.check_next();
